@@ -19,6 +19,9 @@ use std::str::FromStr;
 
 thread_local! {
     static LAST_PANIC: RefCell<String> = RefCell::new(String::new());
+    /// > 0 while code under test runs inside `guarded`; a panic elsewhere is a harness bug and
+    /// is printed
+    static GUARD_DEPTH: std::cell::Cell<u32> = std::cell::Cell::new(0);
 }
 
 pub fn install_quiet_panic_hook() {
@@ -34,6 +37,9 @@ pub fn install_quiet_panic_hook() {
             .location()
             .map(|l| format!(" at {}:{}", l.file(), l.line()))
             .unwrap_or_default();
+        if GUARD_DEPTH.with(|d| d.get()) == 0 {
+            eprintln!("HARNESS-ERROR: panic outside guarded code: {}{}", msg, loc);
+        }
         LAST_PANIC.with(|p| *p.borrow_mut() = format!("{}{}", msg, loc));
     }));
 }
@@ -42,8 +48,11 @@ fn last_panic() -> String {
     LAST_PANIC.with(|p| p.borrow().clone())
 }
 
-fn guarded<R>(f: impl FnOnce() -> R) -> Result<R, String> {
-    catch_unwind(AssertUnwindSafe(f)).map_err(|_| last_panic())
+pub fn guarded<R>(f: impl FnOnce() -> R) -> Result<R, String> {
+    GUARD_DEPTH.with(|d| d.set(d.get() + 1));
+    let r = catch_unwind(AssertUnwindSafe(f));
+    GUARD_DEPTH.with(|d| d.set(d.get() - 1));
+    r.map_err(|_| last_panic())
 }
 
 #[derive(Clone, Debug, Serialize, Deserialize, PartialEq, Eq)]
@@ -1021,7 +1030,9 @@ where
         Ok(d) => Some(d),
     };
     let compare = |what: &str, got: &Decoded<T>, want: &Decoded<T>| -> Option<String> {
-        match (got, want) {
+        // comparing prints the values; a value that came out of Deserialize and cannot be printed
+        // is reported, not allowed to take the harness down
+        let r = guarded(|| match (got, want) {
             (Ok(a), Ok(b)) => {
                 if a.len() != b.len() {
                     return Some(format!("{} returned {} item(s), from_slice {}", what, a.len(), b.len()));
@@ -1036,6 +1047,10 @@ where
             (Err(_), Err(_)) => None,
             (Ok(_), Err(e)) => Some(format!("{} returned Ok but from_slice fails with {}", what, e)),
             (Err(e), Ok(_)) => Some(format!("{} fails with {} but from_slice returns Ok", what, e)),
+        });
+        match r {
+            Ok(o) => o,
+            Err(p) => Some(format!("comparing the value read by {} panicked: {}", what, p)),
         }
     };
     if let Some(e_ref) = &e_ref {
@@ -1056,8 +1071,11 @@ where
             match e_ref {
                 Err(_) => stats.inc(C::flip_runs_rejected),
                 Ok(vals) => {
-                    let same = vals.len() == rec.items().len()
-                        && vals.iter().zip(rec.items()).all(|(a, b)| T::identical(a, &b.item));
+                    let same = guarded(|| {
+                        vals.len() == rec.items().len()
+                            && vals.iter().zip(rec.items()).all(|(a, b)| T::identical(a, &b.item))
+                    })
+                    .unwrap_or(false);
                     stats.inc(if same { C::flip_runs_same_value } else { C::flip_runs_other_value });
                 }
             }
